@@ -170,6 +170,33 @@ def nested_varying_cases():
     return out
 
 
+def mixed_version_function_cases():
+    """Functions whose bodies are written against ai.onnx 17 (ReduceMean with axes as an ATTRIBUTE) in models whose other nodes need
+    ai.onnx 18/19 (where axes is an input): every definition imports the model's version, so its body must be converted like the
+    main graph's nodes are - called directly, from inside another function, and inside a control-flow body.  Judged by the direct
+    oracle (the definitions' imports, full checker, onnxruntime against the numpy evaluation); no exact prediction of converted nodes."""
+    import spox.opset.ai.onnx.v17 as op17
+    import spox.opset.ai.onnx.v18 as op18
+    import spox.opset.ai.onnx.v19 as op19
+    from spox._function import to_function
+
+    out = []
+    for where in ("direct", "nested", "in-if-body", "nested-in-if-body"):
+        for newer, tag in ((op18, "v18"), (op19, "v19")):
+            center = to_function("Center", "verif.mixed")(lambda x: [op17.sub(x, op17.reduce_mean(x, axes=[0], keepdims=1))])
+            twice = to_function("CenterTwice", "verif.mixed")(lambda x: [list(center(op17.mul(list(center(x))[0], x)))[0]])
+            f = center if where in ("direct", "in-if-body") else twice
+            a = B.argument(B.Tensor(np.float32, (2,)))
+            c = B.argument(B.Tensor(np.bool_, ()))
+            top = newer.reduce_max(a, newer.const(np.array([0], np.int64)), keepdims=1)       # needs the newer opset
+            if "if" in where:
+                (r,) = op17.if_(c, then_branch=lambda: [list(f(a))[0]], else_branch=lambda: [op17.neg(a)])
+            else:
+                r = list(f(a))[0]
+            out.append(B.Case({"a": a, "c": c}, {"r": op17.add(r, top)}, False, {"mixed_versions": f"{where}/{tag}"}))
+    return out
+
+
 def run(run: Run) -> int:
     run.check_theorems(PROPS, CONE, thorough_coqchk=(run.tier == "thorough"))
     n = 200 if run.tier == "quick" else 2500
@@ -179,6 +206,10 @@ def run(run: Run) -> int:
         ins, outs = g.program()
         cases.append(B.Case(ins, outs, False, {"intent_problems": list(g.intent_problems)}))
     cases += nested_varying_cases()
+    for c in mixed_version_function_cases():
+        B.run_impl(c)
+        c.coq = None
+        cases.append(c)
     mism = B.correspondence(run, "c14", cases)
     nprng = np.random.RandomState(run.seed)
     hist = collections.Counter()
@@ -203,12 +234,21 @@ def run(run: Run) -> int:
                 have = {("" if i.domain == "ai.onnx" else i.domain) for i in f.opset_import}
                 if not need <= have:
                     probs.append(f"function {f.name}: opset imports {have} do not cover node domains {need}")
+            if c.meta.get("mixed_versions"):
+                probs += [p for p in B.full_check(m)]
+                default = {i.version for i in m.opset_import if i.domain in ("", "ai.onnx")}
+                for f in m.functions:
+                    fv = {i.version for i in f.opset_import if i.domain in ("", "ai.onnx")}
+                    if fv != default:
+                        probs.append(f"function {f.name}: imports ai.onnx {sorted(fv)} while the model imports {sorted(default)}")
             if keys:
                 distinct.add(c.impl)
             n_exec += 1
             p = c01.semantic_oracle(c, nprng)
             if p:
                 probs.append(p)
+        elif c.meta.get("mixed_versions"):
+            probs.append(f"mixed-version program with functions does not build: {c.impl}: {str(c.exc)[:160]}")
         elif varying and type(c.exc).__name__ != "RuntimeError" and c.impl in ("ERR RuntimeError",) is False and not c.impl.startswith("ERR "):
             probs.append("varying bodies not rejected")
         if probs:
